@@ -30,7 +30,7 @@ Record wop := { w_id : N; w_cli : N; w_inv : N; w_resp : N;
                 w_path : path; w_off : N; w_cnt : N (* COMMIT: count, 0 = to the end *); w_stable : N (* stable_how asked for *);
                 w_data : list N;         (* WRITE: the bytes the reply acknowledged (the first [count] bytes sent) *)
                 w_ok : bool; w_committed : N; w_verf : option N }.
-Record case := { q_ops : list wop; q_dumps : list (N * list dump_entry); q_deadlock : bool; q_panic : bool }.
+Record case := { q_ops : list wop; q_dumps : list (N * list dump_entry); q_deadlock : bool; q_panic : bool; q_race : bool (* race detector report during the case *) }.
 
 Definition wlen (w : wop) : N := N.of_nat (length (w_data w)).
 Definition is_write (w : wop) : bool := w_kind w =? 0.
@@ -62,13 +62,14 @@ Definition dump_broken (ops : list wop) (td : N * list dump_entry) : list wop :=
   let st := filter (stable_at ops T) ops in
   filter (fun w => negb (forallb (byte_ok ops st T (snd td) (w_path w)) (offsets (w_off w) (length (w_data w))))) st.
 
-Definition st_deadlock : N := 9001.  Definition st_panic : N := 9002.  Definition st_verf : N := 9010.
+Definition st_deadlock : N := 9001.  Definition st_panic : N := 9002.  Definition st_verf : N := 9010.  Definition st_race : N := 9009.
 Definition verfs (ops : list wop) : list N := flat_map (fun w => match w_verf w with Some v => [v] | None => [] end) ops.
 Definition verf_ok (ops : list wop) : bool := match verfs ops with [] => true | v :: r => forallb (N.eqb v) r end.
 
 Definition check (c : case) : list (N * N) :=
   if q_deadlock c then [(st_deadlock, code_specfail)] else
   (if q_panic c then [(st_panic, code_specfail)] else []) ++
+  (if q_race c then [(st_race, code_specfail)] else []) ++
   first_only (flat_map (fun td => map (fun w => (w_id w, code_specfail)) (dump_broken (q_ops c) td)) (q_dumps c)) ++
   (if verf_ok (q_ops c) then [] else [(st_verf, code_specfail)]).
 Definition run (cs : list case) : result := run_cases check cs.
